@@ -227,6 +227,10 @@ PARTS = {
             [{"o": "reset", "mode": "ip4", "vote_min": 2, "vote_dur": 120}] + [{"o": "established", "rec": "p%d:1:v4" % k, "dir": "Out"} for k in range(1, 7)]
             + [{"o": "response_in", "req": "@p%d" % k, "body": {"t": "pong", "seq": 1, "sock": a}} for k, a in ((1, "X4"), (2, "Y4"), (3, "X4"), (4, "Y4"), (5, "X4"))]
             + [{"o": "advance", "ms": 36001000}, {"o": "response_in", "req": "@p2", "body": {"t": "pong", "seq": 1, "sock": "Z4"}}],
+            # the application's event stream overflows once (120 events in one step, it holds 100); a later address change is still announced
+            [{"o": "reset", "mode": "ip4", "vote_min": 2, "vote_dur": 120}] + [{"o": "established", "rec": "p%d:1:v4" % k, "dir": "Out"} for k in range(1, 4)]
+            + [{"o": "flood", "n": 120}, {"o": "poke"}]
+            + [{"o": "response_in", "req": "@p%d" % k, "body": {"t": "pong", "seq": 1, "sock": "X4"}} for k in (1, 2)],
         ],
         sim={"quick": [dict(cfg="MC_IpVote_sim_ip4.cfg", num=120, depth=40), dict(cfg="MC_IpVote_sim_dual.cfg", num=60, depth=40)],
              "thorough": [dict(cfg="MC_IpVote_sim_ip4.cfg", num=2500, depth=70), dict(cfg="MC_IpVote_sim_dual.cfg", num=1200, depth=70)]},
